@@ -19,4 +19,14 @@ def run_all(chk, fsets, tier):
     for fs in fsets:
         rules_ivl.run_c03_roundtrip(chk, facts.load(fs), fs, tier)
     rules_ivl.run_golomb(chk, facts.load(fsets[0]), fsets[0], tier, "C03")
+    # VByte on bit streams: the writer's bytes are exactly what the reader's stop rule expects (the rules of C18)
+    rules_ivl.run_c18(chk, facts.load(fsets[0]), fsets[0], tier, prefix="K4.vbyte.")
+    # the round trip goes through the bit writers and every reader implementation: their content rules are part of the argument
+    import deps
+    F0 = facts.load(fsets[0])
+    widths = None if tier == "thorough" else (64,)
+    deps.writer_content(chk, F0, fsets[0], "K5.primitives.writer", widths, "codes are written through write_bits/write_unary (C01.W6)")
+    deps.reader_content(chk, F0, fsets[0], "K5.primitives.reader", widths, "codes are read through read_bits/peek_bits/skip/read_unary of the buffered and the unbuffered reader (C02.R7)")
+    chk.rule("K5.primitives.unbuffered", floor=20, doc="E3 obligations of the unbuffered reader, including: a successful read_unary found a terminating one inside the word it counted (C02.R2) [included]")
+    rn.run_specs(chk, F0, [s for s in rn.reader_specs() if s.key.startswith("bitreader.") and s.group is None], "K5.primitives.unbuffered", fsets[0])
     chk.trust("rustc MIR, exporter, contract table, LP entailment; lemmas L4-L7 and the stream-domain assumption are listed, not discharged")
